@@ -43,7 +43,9 @@ func (dgs *defaultGrowSpreaderSimple) assembleAndPrint(current *Node) error {
 	if !current.isRoot() {
 		ret = current.branch() + " " + current.name + "\n"
 	}
-	fmt.Fprint(dgs.w, ret)
+	if _, err := fmt.Fprint(dgs.w, ret); err != nil {
+		return err
+	}
 
 	for _, child := range current.children {
 		if err := dgs.assembleAndPrint(child); err != nil {
